@@ -166,6 +166,104 @@ def hOcra : List String → Option String
         pure (" ".intercalate (go n (ocraStepS c p s st)))
   | _ => none
 
+def b01 (b : Bool) : String := if b then "1" else "0"
+
+/-- one command of a HOTP history: `S:<ctr8>` StepS, `R` StepR, `V:<otp-hex>` StepV, `W` StepV with the right
+password (computed on a copy of the state), `N` StepV with the password AFTER the right one, `G` StepG -/
+def hotpCmd (tok : String) (st : HotpSt) : Option (HotpSt × Option String) :=
+  match tok.splitOn ":" with
+  | ["S", c] => do let c ← hx c; if c.length ≠ 8 then none else pure (hotpStepS c st, none)
+  | ["R"] => let r := hotpStepR st; pure (r.1, some (str r.2))
+  | ["V", o] => do
+    let o ← hx o
+    if o.any (· == 0) then none
+    let r := hotpStepV o st; pure (r.1, some (b01 r.2))
+  | ["W"] => let r := hotpStepV (hotpStepR st).2 st; pure (r.1, some (b01 r.2))
+  | ["N"] => let r := hotpStepV (hotpStepR (hotpStepR st).1).2 st; pure (r.1, some (b01 r.2))
+  | ["G"] => pure (st, some (toHex st.ctr))
+  | _ => none
+
+def runCmds {σ : Type} (f : String → σ → Option (σ × Option String)) : List String → σ → List String → Option (σ × List String)
+  | [], st, acc => some (st, acc.reverse)
+  | t :: ts, st, acc => do
+    let r ← f t st
+    runCmds f ts r.1 (match r.2 with | some o => o :: acc | none => acc)
+
+/-- `hotps <digit> <key> <cmd>…` -> outputs of R/V/W/N/G, then the counter -/
+def hHotpS : List String → Option String
+  | dg :: k :: cmds => do
+    let dg ← parseNat dg; let k ← hx k
+    if dg < 4 ∨ dg > 9 then none
+    let r ← runCmds hotpCmd cmds (hotpStart dg k) []
+    pure (" ".intercalate (r.2 ++ [toHex r.1.ctr]))
+  | _ => none
+
+def tOk (t : Nat) : Bool := t < 2 ^ 64
+
+/-- TOTP history: `R:<t>`, `V:<t>:<otp-hex>`, `W:<t>` (right password) -/
+def totpCmd (dg : Nat) (tok : String) (st : Belt.HmacSt) : Option (Belt.HmacSt × Option String) :=
+  match tok.splitOn ":" with
+  | ["R", t] => do let t ← parseNat t; if !tOk t then none else pure (st, some (str (totpStepR dg st t)))
+  | ["V", t, o] => do
+    let t ← parseNat t; let o ← hx o
+    if !tOk t || o.any (· == 0) then none
+    pure (st, some (b01 (totpStepV o dg st t)))
+  | ["W", t] => do
+    let t ← parseNat t
+    if !tOk t then none
+    pure (st, some (b01 (totpStepV (totpStepR dg st t) dg st t)))
+  | _ => none
+
+/-- `totps <digit> <key> <cmd>…` -/
+def hTotpS : List String → Option String
+  | dg :: k :: cmds => do
+    let dg ← parseNat dg; let k ← hx k
+    if dg < 4 ∨ dg > 9 then none
+    let r ← runCmds (totpCmd dg) cmds (Belt.hmacStart k) []
+    pure (" ".intercalate r.2)
+  | _ => none
+
+def qOk (q : List UInt8) (st : OcraSt) : Bool := 4 ≤ q.length && q.length ≤ 2 * st.qMax
+
+/-- OCRA history: `S:<ctr>:<p>:<s>` StepS, `R:<q>:<t>`, `V:<q>:<t>:<otp-hex>`, `W:<q>:<t>` (right password),
+`N:<q>:<t>` (the password after the right one), `G` -/
+def ocraCmd (tok : String) (st : OcraSt) : Option (OcraSt × Option String) :=
+  match tok.splitOn ":" with
+  | ["S", c, p, s] => do
+    let c ← hx c; let p ← hx p; let s ← hx s
+    if (st.ctrLen ≠ 0 ∧ c.length ≠ 8) ∨ (st.pLen ≠ 0 ∧ p.length ≠ st.pLen) ∨ (st.sLen ≠ 0 ∧ s.length ≠ st.sLen) then none
+    pure (ocraStepS c p s st, none)
+  | ["R", q, t] => do
+    let q ← hx q; let t ← parseNat t
+    if !qOk q st || !tOk t then none
+    let r := ocraStepR q t st; pure (r.1, some (str r.2))
+  | ["V", q, t, o] => do
+    let q ← hx q; let t ← parseNat t; let o ← hx o
+    if !qOk q st || !tOk t || o.any (· == 0) then none
+    let r := ocraStepV o q t st; pure (r.1, some (b01 r.2))
+  | ["W", q, t] => do
+    let q ← hx q; let t ← parseNat t
+    if !qOk q st || !tOk t then none
+    let r := ocraStepV (ocraStepR q t st).2 q t st; pure (r.1, some (b01 r.2))
+  | ["N", q, t] => do
+    let q ← hx q; let t ← parseNat t
+    if !qOk q st || !tOk t then none
+    let r := ocraStepV (ocraStepR q t (ocraStepR q t st).1).2 q t st; pure (r.1, some (b01 r.2))
+  | ["G"] => pure (st, some (toHex st.ctr))
+  | _ => none
+
+/-- `ocras <suite-hex> <key> <cmd>…` -> outputs, then the counter; `bad-format` if Start fails -/
+def hOcraS : List String → Option String
+  | su :: k :: cmds => do
+    let su ← hx su; let k ← hx k
+    if su.any (· == 0) then none
+    match ocraStart su k with
+    | none => pure "bad-format"
+    | some st =>
+      let r ← runCmds ocraCmd cmds st []
+      pure (" ".intercalate (r.2 ++ [toHex r.1.ctr]))
+  | _ => none
+
 /-- `ctrnext <ctr8>` -/
 def hCtrNext : List String → Option String
   | [c] => do let c ← hx c; if c.length ≠ 8 then none else pure (toHex (botpCtrNext c))
@@ -194,6 +292,9 @@ def dispatch (toks : List String) : String :=
       | "hotpv" :: a => hHotpV a
       | "totp" :: a => hTotp a
       | "ocra" :: a => hOcra a
+      | "hotps" :: a => hHotpS a
+      | "totps" :: a => hTotpS a
+      | "ocras" :: a => hOcraS a
       | "ctrnext" :: a => hCtrNext a
       | "dt" :: a => hDT a
       | _ => none
